@@ -285,7 +285,7 @@ pub fn run(cfg: &Cfg, rep: &mut Report) {
     });
 
     // ---- (F) random fill
-    let n = cfg.n(150_000, 2_000_000);
+    let n = cfg.n(150_000, 50_000_000);
     run_stage(cfg, rep, "random", n, |idx, rng, r| {
         let op = if rng.chance(1, 12) { *d.by_name.get("SpecConstantOp").unwrap() } else { rng.below(d.insts.len()) };
         let rp = || crate::util::replay_ref(cfg, "random", idx);
